@@ -365,6 +365,17 @@ func TestC07(t *testing.T) {
 	}
 	parallelDo(len(rcases), 6, func(i int) { runC07Real(r, r.Seed*8887+int64(i)+1, rcases[i]) })
 	r.Extra["real_watcher_histories"] = len(rcases)
+	// (iv) a scripted taker that answers the announcement once (cancel, unusable coop_close) and goes silent, with
+	// the maker restarted while it waits for the CSV
+	var sc []c26Case
+	for _, ch := range []string{"btc", "lbtc"} {
+		for _, ty := range []string{"in", "out"} {
+			for _, b := range []string{"silence", "cancel", "coop-wrong-key", "coop-malformed-key"} {
+				sc = append(sc, c26Case{ch, ty, b, false}, c26Case{ch, ty, b, true})
+			}
+		}
+	}
+	parallelDo(len(sc)*r.N(1, 6), 8, func(i int) { runC16Scripted(r, r.Seed*8893+int64(i)+1, sc[i%len(sc)], "C07") })
 	ho, _ := r.Extra["histories_with_opening_tx"].(int)
 	r.Sample(map[string]any{"case": "lbtc out/receiver, taker sends coop_close with a third-party key after a cancel, swap output at index 2", "expectation": "maker ends in ClaimedCsv with its CSV refund accepted by the chain"})
 	r.Require(ho >= 100, fmt.Sprintf("only %d histories had an opening transaction", ho))
